@@ -688,8 +688,9 @@ class TypedTree(Tree):
         return self._root.last_child(kind=kind)
 
     def iter_by_type(self, kind: str | ANY_KIND) -> Iterator[TypedNode]:
-        if kind == ANY_KIND:
-            return self.iterator()
+        if kind is ANY_KIND:
+            yield from self.iterator()
+            return
         for n in self.iterator():
             if n._kind == kind:
                 yield n
